@@ -30,6 +30,19 @@ CLAIMS = {
          "flushed, fsyncs them before the commit log, and discards node-log data only after the commit-log fsync. Far narrower than the property: crash-point "
          "enumeration, partial-write images, recovery at Open and post-recovery proofs are not decided.",
          "DESIGN.md 3 (C03), 9.5"),
+ "C04": ("Narrow, per-function part of the read path: the index value codec (serializeIndexableEntry / valueRefFrom) round-trips vLen, vOff, hVal, metadata "
+         "presence, tx and revision for every input and rejects short or over-long input without panic; ImmuStore.History and Snapshot.History number "
+         "revisions offset+1+k ascending and hCount-offset-k descending (running-revision loop invariant); GetWithFilters / GetWithPrefixAndFilters return an "
+         "entry XOR an error and every filter applied so far returned nil at every loop head; IgnoreDeleted / IgnoreExpired / Deleted / ExpiredAt predicates; "
+         "WaitForIndexingUpto returns nil only if every indexer wait it issued returned nil. Not decided: indexSince (bulk preparation), the B-tree (C10), "
+         "key readers, every asynchronous behaviour, restart.",
+         "DESIGN.md 3 (C04), 11"),
+ "C13": ("Savepoint and commit plumbing of sql.SQLTx only: Savepoint / RollbackToSavepoint / ReleaseSavepoint fail exactly when the lookup fails (nil map "
+         "included), restore the four SQL-level counters, are a no-op on error and write only the SQLTx (checked frame); a harness proves that "
+         "RollbackToSavepoint leaves the store transaction untouched and the harness stating the property's clause (writes after the savepoint are undone) is "
+         "the known finding; Cancel and the first part of Commit keep the one-shot discipline (already-closed error, same store tx). Not decided: statement "
+         "execution, atomicity and isolation over programs and sessions, pgsql front end.",
+         "DESIGN.md 3 (C13), 11"),
  "C08": ("Verifier half of the property: ahtree.EvalInclusion / EvalLastInclusion / EvalConsistency equal the recursive reference definitions of "
          "path evaluation and VerifyInclusion / VerifyLastInclusion / VerifyConsistency accept exactly when the shape conditions hold and the "
          "evaluated root equals the claimed one (both directions); htree.VerifyInclusion likewise. The tree generators (Append, BuildWith, "
